@@ -144,13 +144,11 @@ def file_into(rep: Report, prop: str, tier: str, kinds=None, only=None, all_cont
         if d.get("renamed"):
             rep.notes.append(f"{short}: binders were renamed since the baseline ({d['renamed']}); the sidecar contract was re-written accordingly (same statement shape)")
         if d["unsupported"]:
+            # a tool limit, not a verdict: the body uses a construct outside the executor's subset (or the sidecar no longer lines up with it).
+            # Never reported as a violation; the bounded stand-in of the same run still judges the behaviour.
             b = base.get(name, {})
-            if b and b.get("fhash") != d["fhash"]:
-                rep.fail(f"{prop}.E1.{short}.unsupported", "contract",
-                         f"{short}: the function changed and its body is no longer inside the verified subset / its sidecar no longer matches",
-                         "pyvc", d["unsupported"], function=name)
-            else:
-                rep.undecided(f"{prop}.E1.{short}.unsupported", "contract", f"verify {short}", "pyvc", d["unsupported"], function=name)
+            changed = " (the function changed since the baseline: its sidecar contract needs maintenance)" if b and b.get("fhash") != d["fhash"] else ""
+            rep.undecided(f"{prop}.E1.{short}.unsupported", "contract", f"verify {short}{changed}", "pyvc", d["unsupported"], function=name)
         for v in d["vcs"]:
             if kinds and v["kind"] not in kinds:
                 continue
